@@ -41,6 +41,11 @@ type Term struct {
 func (t *Term) sealed() {}
 
 func (t *Term) String() string {
+	if t.Negation {
+		positive := *t
+		positive.Negation = false
+		return "~" + positive.String()
+	}
 	switch {
 	case t.Name != "":
 		return t.Name + t.Repetition
